@@ -487,6 +487,12 @@ def r4_idle_path(ctx, rule='C07.R4'):
             t = peel(ex[0][2][2])
             ok = travel(t)
         ctx.check(ok, 'exit-scheduled', 'every accepted transmission schedules exactly one exit event at now + calculate_duration', f.where_path(path))
+        if nonzero and len(unb) == 1 and len(ex) == 1:
+            # with zero latency both fall on the same instant: the channel must be idle again by the time the message it carried is
+            # handed on (events of one instant run in the order they were scheduled, C03)
+            ctx.check(effs.index(unb[0]) < effs.index(ex[0]), 'unbusy-scheduled-before-exit',
+                      "the end of the busy period is scheduled before the message's exit event, so that at the instant both fall on the channel is idle again first",
+                      f.where_path(path))
     ctx.floor('idle paths of send_message', n, 2)
     g = ctx.P.fns.get(CH + 'Channel::set_busy_until')   # may have been inlined into send_message (handled above)
     if g:
